@@ -133,7 +133,7 @@ class FamilyBuilder:
         if lazy == "all" or (lazy == "mixed" and r.random() < 0.5):
             cfg["lazy"] = True
         cgo = []
-        if kn["dialect_support"] and r.random() < 0.6:
+        if kn["dialect_support"] and r.random() < kn.get("p_dialect_support", 0.6):
             cgo.append("ADD_DIALECT_SUPPORT")
         if kn["flags"]:
             for o in ("TO_DICT_ADD_OMIT_NONE_FLAG", "TO_DICT_ADD_BY_ALIAS_FLAG",
@@ -166,7 +166,7 @@ class FamilyBuilder:
             if seen_default or r.random() < 0.35:
                 f["d"] = self.scalar_value(t)
                 seen_default = True
-            if self.kn["cfg_opts"] and r.random() < 0.15:
+            if self.kn["cfg_opts"] and r.random() < self.kn.get("p_alias", 0.15):
                 f["alias"] = f["n"] + "_al"
             out.append(f)
         return out
@@ -616,8 +616,9 @@ def to_input(fam, v, ctx, discr=None):
     if k == "o":
         cname = v[1]
         sub = dict(ctx)
-        if fam.is_mixin(cname) or True:
-            sub["date"] = date_fmt(fam, cname, ctx.get("dialect"))
+        sub["date"] = date_fmt(fam, cname, ctx.get("dialect"))
+        if sub["date"] == "iso" and ctx.get("force_date"):
+            sub["date"] = ctx["force_date"]
         cfg = fam.cfg(cname)
         aliases = cfg.get("aliases") or {}
         fdefs = {f["n"]: f for f in fam.all_fields(cname)}
